@@ -62,19 +62,20 @@ CFG = {
                   "Round 4: never-panic WITHOUT hypothesis at the byte level (sgr_total_parser_delivers: csiDispatch never builds an empty parameter, any table / state / input; sgr_total_parseStyled_bytes, "
                   "sgr_total_pen_bytes, sgr_total_newStyledString_bytes for every string; sgr_total_parseStyled_io for every byte string through the ParserIO reader incl. invalid UTF-8; sgr_total_esc_m_bytes); "
                   "agreement on EVERY parameter list: parseSGR = emulator sgr for all lists and styles (consumers_int_agree_all), NewStyledString agrees on the decidable class agreeClass which contains the "
-                  "producers' whole range (consumers_agree_on_class, producers_range_in_class, string_parsers_agree_on_class over strings) and provably not everywhere (nine disagreement classes with "
+                  "producers' whole range (consumers_agree_on_class, producers_range_in_class, string_parsers_agree_on_class over strings), EXACTLY on the decidable set agreeExact (consumers_agree_iff: every consumer is a "
+                  "field-wise keep/constant, bit-wise keep/set/clear transformer of the style, so two probe styles decide agreement from every style) and provably not everywhere (nine disagreement classes with "
                   "decide-checked witnesses, all outside the producers' range: disagreement_witnesses, disagreement_noncanonical_bytes, consumers_agree_all_full_fails); the legacy-SGR quirk as named statements "
                   "(quirk_is_replace_colon, quirk_strings, quirk_prints_legacy_forms: legacy = true is what quirks.go does; legacy_quirk_no_effect_ssEncode from the extracted mutability facts; nine "
                   "legacy_quirk_<producer>_<consumer> at token and byte level; legacy_quirk_roundtrip_*; render_frame_read_bytes / legacy_quirk_frame: a rendered frame's SGR+text bytes read back by all three "
                   "consumers under every capability setting); hyperlinks: LinksRestorable is EXACT (roundtrip_ss_links_iff, roundtrip_cells_links_via_ss_iff, links_restorable_iff_clauses).",
-    "level_note": "Proved for all inputs on the model (154 theorems, axioms propext/Classical.choice/Quot.sound only). Fixed in /repo: F48, F35 (round 1), "
+    "level_note": "Proved for all inputs on the model (157 theorems, axioms propext/Classical.choice/Quot.sound only). Fixed in /repo: F48, F35 (round 1), "
                   "F118, F119, F121 (round 2), F122 (round 3: ParseStyledString split a grapheme that straddled the parser's 4096-byte buffer; it now buffers the whole "
                   "string; parse_chunked_cuts_cluster shows the old reader failing on the model). Validated by correspondence only: that the byte-level model is the code "
                   "(encb / encbl: exact producer strings; decb: both string parsers on exact strings incl. junk parameter texts, with the uniseg cluster table, and the "
                   "ParserIO-based reader model beside the oracle model on every decb cells string; decbl: NewStyledString with hyperlink fields), grapheme segmentation "
-                  "(hypotheses TextOK / Agrees), what each handled label does (the set of labels and arities is extracted); round 4: that the three real consumers agree on agreeClass and never "
+                  "(hypotheses TextOK / Agrees), what each handled label does (the set of labels and arities is extracted); round 4: that the three real consumers agree on agreeExact (which contains agreeClass) and never "
                   "panic (agr: real ParseStyledString / NewStyledString / emulator side by side), that the nine disagreement classes are stable on the real code (corpus R4, model = implementation), that a real "
-                  "rendered frame is read back as capCells (rdf). Not findings: the disagreements lie outside the producers' range. agreeClass is sufficient, not exact (later parameters can mask a difference). "
+                  "rendered frame is read back as capCells (rdf). Not findings: the disagreements lie outside the producers' range. "
                   "Outside the theorems: what ParseStyledString returns for "
                   "invalid UTF-8 (C02's streams; that it does not panic is sgr_total_parseStyled_io), negative parameter values from int overflow (read as 0 by the model), hyperlinks through ParseStyledString (it drops them: not in the property text), cell widths (not in the "
                   "property text; re-measured by the parsers), cursor movement / mode sequences of rendered frames (the SGR and text part is inside: renderFromB, render_frame_shows_bytes, op encb render).",
